@@ -95,12 +95,18 @@ fn zoo() -> Vec<u8> {
     let png: Vec<u8> = (0..3).flat_map(|row| std::iter::once(2u8).chain((0..5).map(move |x| (row * 7 + x) as u8))).collect();
     let tiff: Vec<u8> = (0..24).map(|x| (x * 5) as u8).collect();
     let parms = |p: i64, colors: i64, cols: i64| d(vec![("Predictor", json!(p)), ("Colors", json!(colors)), ("Columns", json!(cols)), ("BitsPerComponent", json!(8))]);
+    let parms_b = |p: i64, colors: i64, cols: i64, bpc: i64| d(vec![("Predictor", json!(p)), ("Colors", json!(colors)), ("Columns", json!(cols)), ("BitsPerComponent", json!(bpc))]);
+    // PNG rows of every filter type for pixels narrower than a byte (6 x 5 at 4 bits, 9 x 5 at 1 bit) and wider (2 x 3 RGB at 16 bits)
+    let rows = |types: &[u8], len: usize, salt: u8| -> Vec<u8> { types.iter().enumerate().flat_map(|(y, t)| std::iter::once(*t).chain((0..len).map(move |x| (y as u8) * 31 + (x as u8) * 11 + salt))).collect() };
+    let png4 = rows(&[0, 1, 2, 3, 4], 3, 5);
+    let png1 = rows(&[4, 3, 1, 2, 0], 2, 9);
+    let png16 = rows(&[1, 3, 4], 12, 3);
     let objects = vec![
         json!({"n": 1, "g": 0, "value": d(vec![("Type", n("Catalog")), ("Pages", r(2))])}),
         json!({"n": 2, "g": 0, "value": d(vec![("Type", n("Pages")), ("Kids", json!([r(3)])), ("Count", json!(1)), ("Rotate", json!(90))])}),
         json!({"n": 3, "g": 0, "value": d(vec![("Type", n("Page")), ("Parent", r(2)), ("MediaBox", json!([0, 0, 612, 792])), ("Rotate", json!(270)),
             ("Contents", json!([r(4), r(5), r(6), r(7), r(8), r(9)])),
-            ("Resources", d(vec![("Font", d(vec![("F1", r(12))])), ("XObject", d(vec![("Im1", r(10)), ("Im2", r(11))]))]))])}),
+            ("Resources", d(vec![("Font", d(vec![("F1", r(12))])), ("XObject", d(vec![("Im1", r(10)), ("Im2", r(11)), ("Im3", r(14)), ("Im4", r(15)), ("Im5", r(16))]))]))])}),
         stream(4, vec![], c.to_vec()),
         stream(5, vec![("Filter", n("ASCIIHexDecode"))], hexenc(c)),
         stream(6, vec![("Filter", n("ASCII85Decode"))], a85(c)),
@@ -115,6 +121,13 @@ fn zoo() -> Vec<u8> {
             ("Widths", json!([278, 278, 355]))])}),
         json!({"n": 13, "g": 0, "value": d(vec![("Title", json!({"s": "Zoo \\(1\\)"})), ("Custom", json!({"hex": [1, 2, 254]}))])}),
     ];
+    let mut objects = objects;
+    objects.push(stream(14, vec![("Type", n("XObject")), ("Subtype", n("Image")), ("Width", json!(6)), ("Height", json!(5)), ("ColorSpace", n("DeviceGray")),
+        ("BitsPerComponent", json!(4)), ("Filter", n("FlateDecode")), ("DecodeParms", parms_b(15, 1, 6, 4))], zl(&png4)));
+    objects.push(stream(15, vec![("Type", n("XObject")), ("Subtype", n("Image")), ("Width", json!(9)), ("Height", json!(5)), ("ColorSpace", n("DeviceGray")),
+        ("BitsPerComponent", json!(1)), ("Filter", n("FlateDecode")), ("DecodeParms", parms_b(11, 1, 9, 1))], zl(&png1)));
+    objects.push(stream(16, vec![("Type", n("XObject")), ("Subtype", n("Image")), ("Width", json!(2)), ("Height", json!(3)), ("ColorSpace", n("DeviceRGB")),
+        ("BitsPerComponent", json!(16)), ("Filter", n("FlateDecode")), ("DecodeParms", parms_b(13, 3, 2, 16))], zl(&png16)));
     let plan = json!({"version": "1.7", "revisions": [{"objects": objects, "xref": "table", "trailer": [["Root", r(1)], ["Info", r(13)]]}]});
     crate::synth::build(&plan).bytes
 }
@@ -759,6 +772,7 @@ fn run(a: &Args) {
 
 /// One file from disk under every preset (hand-made experiments; a hang is the caller's `timeout` to catch).
 fn probe(a: &Args) {
+    std::panic::set_hook(Box::new(|info| eprintln!("panic at {}", info.location().map(|l| format!("{}:{}", l.file(), l.line())).unwrap_or_default())));
     let bytes = std::fs::read(a.req("file")).unwrap_or_else(|e| tool_error(&e.to_string()));
     let numbers: Vec<u32> = crate::c03::object_numbers(&bytes).into_iter().take(80).collect();
     for (pname, opts) in presets() {
